@@ -225,6 +225,29 @@ def run(repo: Repo, rep: Report, tier: str) -> None:
                 rep.violation("R12.3", sub, f"{emit.fq}|verbatim|{norm(content) if content is not None else ''}",
                               "runtime file content is transformed (or taken from elsewhere) between read and write: " + why, emit.loc(w))
 
+    # every iteration of the copy loop writes (no "skip if it already exists": stale runtime files would survive)
+    for lp in loops:
+        cfg = CFG(emit.node)
+        hdr = [n.id for n in cfg.nodes if n.kind == "iter" and n.stmt is lp]
+        wnodes = {n.id for n in cfg.nodes if n.kind == "stmt" and n.ast is not None and _inside_stmt(n.ast, lp) and any(
+            isinstance(c.func, ast.Attribute) and c.func.attr in ("write_file", "write_text", "write") for c in calls_in(n.ast))}
+        sub = f"{emit.module.relpath}:CoreEmitter.emit every runtime file is (re)written"
+        if hdr and wnodes:
+            starts = [m for m, lab in cfg.succ[hdr[0]] if lab == "loop"]
+            witness = None
+            for st0 in starts:
+                if st0 in wnodes:
+                    continue
+                witness = witness or cfg.must_pass(st0, wnodes, {hdr[0], cfg.exit})
+            if witness is None:
+                rep.ok("R12.3", sub, "every normal path through one iteration of the RUNTIME_FILES loop reaches the write", emit.loc(lp))
+            else:
+                rep.violation("R12.3", sub, f"{emit.fq}|copy-skipped|{cfg.describe_path(witness)}",
+                              f"an iteration of the RUNTIME_FILES loop can finish without writing the file ({cfg.describe_path(witness)}): an existing, "
+                              "different runtime module in the core is left as it is (not byte-for-byte the shipped one)", emit.loc(lp))
+        else:
+            rep.error("R12.3: could not locate the RUNTIME_FILES loop header / write in the CFG")
+
     # ---------------------------------------------------------------- R12.4 registrations
     n_sites = 0
     for mn in live:
@@ -305,6 +328,15 @@ def run(repo: Repo, rep: Report, tier: str) -> None:
                     rep.violation("R12.5", sub, f"{mn}|template-import|{modtxt.replace(HOLE, '{}')}", f"template {why}", loc)
     rep.count("R12.5:template_import_statements", n_tmpl)
     rep.require(n_tmpl >= 30, f"R12.5: only {n_tmpl} template-embedded import statements found (floor 30)")
+
+
+def _inside_stmt(node: ast.AST, anc: ast.AST) -> bool:
+    p = node
+    while p is not None:
+        if p is anc:
+            return True
+        p = parent(p)
+    return False
 
 
 def _import_lines(txt: str, holes: List[ast.AST]) -> List[Tuple[str, Optional[ast.AST]]]:
